@@ -20,7 +20,9 @@ PROFILES = {
     'hidden': {'hidden_bars': True},
     'explore_chords': {'chords': 'explore'},
     'kern_only': {'kern_only': True, 'chords': 'core'},
-    'multi_sigs': {'multi_sigs': True},          # signifiers of more than one character ('&(' '[y' 'Ww' 'L<' ...) among the others
+    'multi_sigs': {'multi_sigs': True},
+    # scores with a **root spine (notes and rests read by the kern grammar, as in chorale analyses) next to **kern and other spines
+    'with_root': {'types': ['**root', '**root', '**root', '**text', '**harm'], 'first_kern': 0.5, 'root_plain': True},          # signifiers of more than one character ('&(' '[y' 'Ww' 'L<' ...) among the others
 }
 
 
@@ -292,27 +294,29 @@ def sess_c04(seed, profile='main', own_types=False):
 # ------------------------------------------------------------------------------------------------
 # C05 / C13 / C06
 # ------------------------------------------------------------------------------------------------
-def sess_c05(seed, profile='main', npairs=40, big=6):
+def sess_c05(seed, profile='main', npairs=40, big=6, enc=None):
     r, lines, types = make_doc(seed, profile, max_rows=14)
     evs, doc, text = session.record_import(lines)
+    # the property names no encoding: the sessions alternate between the extended form (every sub-part visible) and the default kern form
+    enc = enc or ('ekern' if seed % 2 else 'kern')
     if doc is not None:
         # the unfiltered export is the BASE every filtered export is judged relative to
-        evs.append(session.record_call(doc, {'op': 'dumps', 'args': session.dumps_args(enc='ekern'), 'exact': True, 'role': 'base'}))
+        evs.append(session.record_call(doc, {'op': 'dumps', 'args': session.dumps_args(enc=enc), 'exact': True, 'role': 'base'}))
         base = len(evs)
         evs.append(session.record_call(doc, {'op': 'same_as', '_what': 'dumps', 'ref': base,
-                                             'args': session.dumps_args(inc=CATS, exc=[], enc='ekern'), '_form': 1}))   # include=all, exclude=nothing
+                                             'args': session.dumps_args(inc=CATS, exc=[], enc=enc), '_form': 1}))   # include=all, exclude=nothing
         k = 0
         for c in CATS:
             for inc, exc in ((([c]), None), (None, [c])):
                 k += 1
-                evs.append(session.record_call(doc, {'op': 'dumps', 'args': session.dumps_args(inc=inc, exc=exc, enc='ekern'), '_form': k, 'base': base}))
+                evs.append(session.record_call(doc, {'op': 'dumps', 'args': session.dumps_args(inc=inc, exc=exc, enc=enc), '_form': k, 'base': base}))
         for _ in range(npairs):
             a, b = r.choice(CATS), r.choice(CATS)
-            evs.append(session.record_call(doc, {'op': 'dumps', 'args': session.dumps_args(inc=[a], exc=[b], enc='ekern'), '_form': r.randrange(9), 'base': base}))
+            evs.append(session.record_call(doc, {'op': 'dumps', 'args': session.dumps_args(inc=[a], exc=[b], enc=enc), '_form': r.randrange(9), 'base': base}))
         for _ in range(big):
             inc = r.sample(CATS, r.randint(0, 6)) if r.random() < 0.8 else None
             exc = r.sample(CATS, r.randint(0, 4))
-            evs.append(session.record_call(doc, {'op': 'dumps', 'args': session.dumps_args(inc=inc, exc=exc, enc='ekern'), '_form': r.randrange(9), 'base': base}))
+            evs.append(session.record_call(doc, {'op': 'dumps', 'args': session.dumps_args(inc=inc, exc=exc, enc=enc), '_form': r.randrange(9), 'base': base}))
     return finish_session(lines, evs, text, seed, features(lines))
 
 
@@ -320,14 +324,15 @@ def sess_c05_allpairs(seed, profile='main'):
     """every include/exclude pair of single categories (37 x 37) on one small document."""
     r, lines, types = make_doc(seed, profile, max_rows=8, max_spines=3)
     evs, doc, text = session.record_import(lines)
+    enc = 'ekern' if seed % 2 else 'kern'
     if doc is not None:
-        evs.append(session.record_call(doc, {'op': 'dumps', 'args': session.dumps_args(enc='ekern'), 'exact': True, 'role': 'base'}))
+        evs.append(session.record_call(doc, {'op': 'dumps', 'args': session.dumps_args(enc=enc), 'exact': True, 'role': 'base'}))
         base = len(evs)
         k = 0
         for a in CATS:
             for b in CATS:
                 k += 1
-                evs.append(session.record_call(doc, {'op': 'dumps', 'args': session.dumps_args(inc=[a], exc=[b], enc='ekern'), '_form': k % 9, 'base': base}))
+                evs.append(session.record_call(doc, {'op': 'dumps', 'args': session.dumps_args(inc=[a], exc=[b], enc=enc), '_form': k % 9, 'base': base}))
     return finish_session(lines, evs, text, seed, features(lines) | {'all-pairs'})
 
 
